@@ -58,6 +58,14 @@ THEOREMS = [
     "OllamaVerif.Causal.defragCore_freeCount",
     "OllamaVerif.Causal.findStart_compact_none",
     "OllamaVerif.C06.full_only_without_room",
+    "OllamaVerif.C06.refines_step",
+    "OllamaVerif.C06.refines_run",
+    "OllamaVerif.C06.refines_all_histories",
+    "OllamaVerif.C06.rejected_forward_abs",
+    "OllamaVerif.C06.specStep_perm",
+    "OllamaVerif.C06.rowsFresh_run",
+    "OllamaVerif.C06.defrag_abs_perm_layers",
+    "OllamaVerif.Causal.defragCore_rows_sub",
     "OllamaVerif.C06.reserve_state",
     "OllamaVerif.C06.reserve_inv",
     "OllamaVerif.C06.reserve_covers",
